@@ -16,6 +16,10 @@
      "doublefree-on-oom"  the exit of b_callback taken when PyObject_GC_New() fails frees the closure
                   itself and then falls into the common error label, which frees it again
      "stalebind"  user_data is not rewritten when a freed closure is reused
+     "borrowed-info"  general_invoke_callback does not take its own reference to the info tuple
+                  (ct, py_func, error value, onerror) for the duration of the invocation: when the
+                  callback is dropped while it runs and its closure is reused, the error path reads
+                  the error value / onerror handler of the NEW owner of that memory
      "cap-after-count"  more_core limits allocate_num_pages to Cap pages *after* it has computed the
                   number of blocks from the unlimited value: fewer bytes are mmap()ed than blocks are
                   threaded onto the free list *)
@@ -24,18 +28,23 @@ CONSTANTS PageSize,   \* _pagesize
           SlotSize,   \* sizeof(union mmapped_block)
           Gap,        \* distance between the (abstract) base addresses of consecutive blocks
           Sigs,       \* signatures
+          OnErrs,     \* choices for "was an onerror handler given" (subset of BOOLEAN)
+          MaxDepth,   \* bound on the nesting of invocations in flight (exhaustive configurations)
           Cap,        \* (only used by the variant "cap-after-count") page limit of one mmap() request
           Variant
 VARIABLES fl,         \* free_list, head first
           npages,     \* allocate_num_pages
           nblocks,    \* number of mmap()ed chunks
           maps,       \* maps[b] = number of bytes mmap()ed for chunk b
-          bind,       \* bind[a] = [fn, sig]: closure->user_data of the closure at address a
-          sig         \* sig[c] = signature of the live callback c
-vars == <<live, last, fl, npages, nblocks, maps, bind, sig>>
-View == <<live, fl, npages, nblocks, maps, bind, sig>>
+          bind,       \* bind[a] = [fn, sig, errv, oe]: closure->user_data (the info tuple) of the closure at a
+          sig,        \* sig[c] = signature of the live callback c
+          frames      \* general_invoke_callback activations, innermost last: [c, a, info] (info = the
+                      \* tuple it holds its own reference to: Py_INCREF(cb_args) ... Py_DECREF(cb_args))
+vars == <<live, own, stack, last, fl, npages, nblocks, maps, bind, sig, frames>>
+View == <<live, own, stack, fl, npages, nblocks, maps, bind, sig, frames>>
 
-Init == IInit /\ fl = <<>> /\ npages = 0 /\ nblocks = 0 /\ maps = <<>> /\ bind = Empty /\ sig = Empty
+Init == IInit /\ fl = <<>> /\ npages = 0 /\ nblocks = 0 /\ maps = <<>> /\ bind = Empty /\ sig = Empty /\ frames = <<>>
+ErrOf(c) == c            \* the error result callback c is created with (its own: distinct per callback)
 
 \* ------------------------------------------------------------------ malloc_closure.h
 \* The allocator as pure operators over a record A = [fl, npages, nblocks, maps] (used by the actions
@@ -67,14 +76,16 @@ Set(f, k, v) == [x \in DOMAIN f \cup {k} |-> IF x = k THEN v ELSE f[x]]
 Del(f, k) == [x \in DOMAIN f \ {k} |-> f[x]]
 
 \* ------------------------------------------------------------------ operations
-Create(c, s) ==         \* ffi.callback(sig, fn): b_callback
+Create(c, s, oe) ==     \* ffi.callback(sig, fn, error, onerror): b_callback
     /\ c \notin Live
     /\ LET r == AllocOp(Cur) IN
          /\ SetAlloc(r.st)
          /\ bind' = IF Variant = "stalebind" /\ r.item \in DOMAIN bind THEN bind
-                    ELSE Set(bind, r.item, [fn |-> c, sig |-> s])
-         /\ CreateE(c, r.item) /\ Ev("create", c, r.item, <<>>, <<>>, <<>>, 0, 0)
+                    ELSE Set(bind, r.item, [fn |-> c, sig |-> s, errv |-> ErrOf(c), oe |-> oe])
+         /\ CreateE2(c, r.item, ErrOf(c), oe)
+         /\ last' = [NoEvent EXCEPT !.ev = "create", !.c = c, !.a = r.item, !.errv = ErrOf(c), !.oe = oe]
     /\ sig' = Set(sig, c, s)
+    /\ UNCHANGED frames
 
 \* b_callback fails after cffi_closure_alloc() has popped a closure.  The exits of the real code:
 \*   "gcnew"    PyObject_GC_New() returns NULL (out of memory): goto error with cd == NULL, the error
@@ -91,24 +102,47 @@ FreedAfterFail(pt, a, l) ==
 CreateFail(pt) ==
     /\ pt \in FailPoints
     /\ LET r == AllocOp(Cur) IN SetAlloc([r.st EXCEPT !.fl = FreedAfterFail(pt, r.item, @)])
-    /\ UNCHANGED <<live, last, bind, sig>>
+    /\ UNCHANGED <<live, own, stack, last, bind, sig, frames>>
 
 Drop(c) ==              \* cdataowninggc_dealloc
     /\ c \in Live
     /\ SetAlloc(FreeOp(Cur, live[c]))
     /\ sig' = Del(sig, c)
     /\ DropE(c) /\ Ev("drop", c, 0, <<>>, <<>>, <<>>, 0, 0)
-    /\ UNCHANGED bind
+    /\ UNCHANGED <<bind, frames>>
 
 Call(c) ==              \* through the cdata or from C: the trampoline at live[c] -> invoke_callback(user_data)
     /\ c \in Live
     /\ LET b == bind[live[c]] IN Ev("call", c, 0, <<b.fn>>, <<sig[c]>>, <<b.sig>>, 0, 0)
-    /\ CallE(c) /\ UNCHANGED <<fl, npages, nblocks, maps, bind, sig>>
+    /\ CallE(c) /\ UNCHANGED <<fl, npages, nblocks, maps, bind, sig, frames>>
 
-Next == \/ \E c \in Cbs, s \in Sigs : Create(c, s)
+\* The same invocation observed in two steps, so that other operations (in particular Drop(c) itself and
+\* a Create that reuses c's closure) can happen while c's Python function runs.
+\* general_invoke_callback (_cffi_backend.c): cb_args = closure->user_data; Py_INCREF(cb_args); ... call
+\* py_func ... on error: raw_error_value = item 2, onerror = item 3 of cb_args ... Py_DECREF(cb_args).
+Begin(c) ==
+    /\ c \in Live /\ Len(frames) < MaxDepth
+    /\ LET b == bind[live[c]] IN
+         /\ frames' = Append(frames, [c |-> c, a |-> live[c], info |-> b])
+         /\ last' = [NoEvent EXCEPT !.ev = "begin", !.c = c, !.ran = <<b.fn>>, !.sent = <<sig[c]>>, !.recv = <<b.sig>>]
+    /\ BeginE(c) /\ UNCHANGED <<fl, npages, nblocks, maps, bind, sig>>
+End(how) ==
+    /\ frames # <<>>
+    /\ LET f == frames[Len(frames)]
+           info == IF Variant = "borrowed-info" THEN bind[f.a] ELSE f.info IN
+         /\ last' = [NoEvent EXCEPT !.ev = "end", !.c = f.c, !.how = how,
+                                    !.ret = IF how = "raise" THEN info.errv ELSE 0,
+                                    !.herr = IF how = "raise" /\ info.oe THEN <<info.fn>> ELSE <<>>]
+         /\ EndE(f.c)
+    /\ frames' = SubSeq(frames, 1, Len(frames) - 1)
+    /\ UNCHANGED <<fl, npages, nblocks, maps, bind, sig>>
+
+Next == \/ \E c \in Cbs, s \in Sigs, oe \in OnErrs : Create(c, s, oe)
         \/ \E pt \in FailPoints : CreateFail(pt)
         \/ \E c \in Cbs : Drop(c)
         \/ \E c \in Cbs : Call(c)
+        \/ \E c \in Cbs : Begin(c)
+        \/ \E how \in {"return", "raise"} : End(how)
 Spec == Init /\ [][Next]_vars
 
 \* ------------------------------------------------------------------ exhaustive configurations
@@ -119,7 +153,11 @@ Range(q) == {q[i] : i \in DOMAIN q}
 LiveAddrs == {live[c] : c \in Live}
 FreeDisjointLive == Range(fl) \cap LiveAddrs = {}                      \* free /\ live = {}
 FreeNoDup == Cardinality(Range(fl)) = Len(fl)
-BoundOwn == \A c \in Live : bind[live[c]] = [fn |-> c, sig |-> sig[c]]   \* bound to its own function
+BoundOwn == \A c \in Live : bind[live[c]] = [fn |-> c, sig |-> sig[c], errv |-> own[c].errv, oe |-> own[c].oe]   \* bound to its own function / error binding
+\* every activation keeps the binding its callback had when it was called
+FramesOwn == /\ Len(frames) = Len(stack)
+             /\ \A j \in DOMAIN frames : /\ frames[j].c = stack[j].c /\ frames[j].info.fn = stack[j].c
+                                          /\ frames[j].info.errv = stack[j].errv /\ frames[j].info.oe = stack[j].oe
 \* every block handed out or on the free list lies inside the bytes mmap()ed for its chunk
 InsideMapping == \A a \in Range(fl) \cup LiveAddrs :
                    \E b \in 1..nblocks : a >= Base(b) /\ a + SlotSize <= Base(b) + maps[b]
